@@ -295,7 +295,7 @@ def taskfnStep (s : TaskfnDS) (t : List String) : TaskfnDS × String :=
     | some pod =>
       let fin := match pod.finishTimestamp with
         | none => "panic" | some f => encTime f
-      let ref := match pod.taskRef with
+      let ref := match pod.taskRef s.now with
         | none => "panic" | some r => encTaskRef r
       (s, s!"{encTState pod.state} {encTRes pod.result} {encTime pod.runningTimestamp} {fin} {b01 pod.requiresKillWithDeletion} {ref}")
   | ["taskfn.gettaskref", ex, tk] =>
